@@ -102,6 +102,10 @@ pub trait Subject: Send + Sync {
     fn decode(&self, bytes: &[u8]) -> Result<Box<dyn Any>, ErrClass>;
     /// decode through an explicit context and drain it: returns the number of bytes left unread
     fn decode_rest(&self, bytes: &[u8]) -> (Result<Box<dyn Any>, ErrClass>, usize);
+    /// write one more value into an existing stream (shared string / reference numbering)
+    fn encode_into(&self, x: &dyn Any, ctx: &mut SerializationContext<Vec<u8>>) -> Result<(), ErrClass>;
+    /// read the next value from an existing stream
+    fn decode_from(&self, ctx: &mut DeserializationContext<'_>) -> Result<Box<dyn Any>, ErrClass>;
 }
 
 pub struct S<T> {
@@ -157,6 +161,17 @@ impl<T: Model + BinarySerializer + BinaryDeserializer> Subject for S<T> {
 
     fn decode(&self, bytes: &[u8]) -> Result<Box<dyn Any>, ErrClass> {
         match desert::deserialize::<T>(bytes) {
+            Ok(v) => Ok(Box::new(v)),
+            Err(e) => Err(classify(&e)),
+        }
+    }
+
+    fn encode_into(&self, x: &dyn Any, ctx: &mut SerializationContext<Vec<u8>>) -> Result<(), ErrClass> {
+        cast::<T>(x).serialize(ctx).map_err(|e| classify(&e))
+    }
+
+    fn decode_from(&self, ctx: &mut DeserializationContext<'_>) -> Result<Box<dyn Any>, ErrClass> {
+        match T::deserialize(ctx) {
             Ok(v) => Ok(Box::new(v)),
             Err(e) => Err(classify(&e)),
         }
